@@ -14,7 +14,11 @@ def main():
         ids = [i for i in ids if i in args or i.split("-")[0] in args]
     props = [f"C{i:02d}" for i in range(1, 19)]
     def one(i):
-        return i, run(os.path.join(base, i, "patch.diff"), props)
+        r = run(os.path.join(base, i, "patch.diff"), props)
+        # one retry on a crashed check (resource exhaustion under parallel load is not a verdict)
+        if r and any(v.get("rc") not in (0, 1) for v in r.values()):
+            r = run(os.path.join(base, i, "patch.diff"), props)
+        return i, r
     res = {}
     alarms = 0
     with ThreadPoolExecutor(8) as ex:
